@@ -16,7 +16,8 @@ SHARDS = {"quick": 1, "thorough": 16}
 RULE = ("cases = (packet, fault) where packet is a validly packed PUS TC, PUS TM or CFDP PDU of any of the 8 kinds built with the "
         "CRC flag, and fault is a single-bit flip at every bit or a burst of length 2..16 at every bit offset (patterns: both ends "
         "only, all ones, random interior; thorough: all 2^(L-2) interiors for L<=8) that does not touch a length-determining bit "
-        "(TC/TM octets 4-5; CFDP octets 1-3 and the CRC-flag bit of octet 0); every such fault is detectable by a CRC-16, so any "
+        "(TC/TM octets 4-5; CFDP octets 1-3 and the CRC-flag bit of octet 0), plus value-dependent bursts (every 16-bit window zeroed, set "
+        "to all ones or byte-swapped; every octet forced to 00 / ff); every such fault is detectable by a CRC-16, so any "
         "acceptance is a defect; non-trivial = every (packet, fault) pair; distinct = distinct (packet octets, xor mask)")
 TRUSTED = ["CPython 3.12", "spverif.ref.crc", "spverif.ref.pus / ref.cfdp for the uncorrupted-trailer check"]
 ASSUMPTIONS = [
@@ -25,9 +26,25 @@ ASSUMPTIONS = [
 ]
 
 
-def faults(n_octets: int, excluded_bits: set, rng, full: bool):
+def faults(n_octets: int, excluded_bits: set, rng, full: bool, packet: bytes = None):
     """Yield (xor mask as int over the whole packet, description)."""
     nbits = 8 * n_octets
+    if packet is not None:
+        # value-dependent bursts: every 16-bit window at every octet offset forced to all-zero / all-one / byte-swapped
+        # (the xor pattern is the window's own content, e.g. a trailer overwritten with 0000) - all have span <= 16 bits
+        for i in range(n_octets - 1):
+            if any(b in excluded_bits for b in range(8 * i, 8 * i + 16)):
+                continue
+            w = int.from_bytes(packet[i:i + 2], "big")
+            for m, name in ((w, "zeroed"), (w ^ 0xFFFF, "all_ones"), (w ^ (((w & 0xFF) << 8) | (w >> 8)), "swapped")):
+                if m:
+                    yield m << (nbits - 8 * i - 16), (f"window_{name}", 8 * i, 16)
+        for i in range(n_octets):
+            if any(b in excluded_bits for b in range(8 * i, 8 * i + 8)):
+                continue
+            for m in (packet[i], packet[i] ^ 0xFF):
+                if m:
+                    yield m << (nbits - 8 * i - 8), ("octet_forced", 8 * i, 8)
     for pos in range(nbits):
         if pos in excluded_bits:
             continue
@@ -79,7 +96,7 @@ def k_pus(ctx, which, raw, ts_len=0, full=False, fault=None):
     excluded = set(range(32, 48))
     sec_len = 5 if which == "tc" else 7 + ts_len
     doc = documented_errors()
-    it = [(int(fault, 16), ("replay", 0, 0))] if fault else faults(n, excluded, ctx.rng, full)
+    it = [(int(fault, 16), ("replay", 0, 0))] if fault else faults(n, excluded, ctx.rng, full, p)
     cnt = 0
     for mask, (ftype, pos, L) in it:
         cnt += 1
@@ -122,7 +139,7 @@ def k_pdu(ctx, kind, cfg, p, full=False, fault=None):
     hl = R.header_len(cfg["idw"], cfg["seqw"])
     excluded = set(range(8, 32)) | {6}
     doc = documented_errors()
-    it = [(int(fault, 16), ("replay", 0, 0))] if fault else faults(n, excluded, ctx.rng, full)
+    it = [(int(fault, 16), ("replay", 0, 0))] if fault else faults(n, excluded, ctx.rng, full, raw)
     cnt = 0
     for mask, (ftype, pos, L) in it:
         cnt += 1
